@@ -735,7 +735,7 @@ class SparseArray:
             m, n = unpack_index(index, self.ndim)
             if m.__class__ is slice:
                 if m == open_slice:
-                    if n == open_slice:
+                    if n.__class__ is slice and n == open_slice:
                         return self
                     else:
                         value = np.array([i[n] for i in rows])
